@@ -606,3 +606,80 @@ def client_error_status(use_async: bool, ssel: int, bsel: int) -> str:
         except Exception as ex:  # noqa: BLE001
             return exc_result(orc, ex, 'client')
         return orc.result()
+
+
+def pool_after_broken_connection(where: int, same_user: bool, n_users: int) -> str:
+    """
+    REAL SoapClientPool + REAL SoapClient (stub HTTP connection): the connection of the pooled client of a network location
+    breaks (0 while sending the request, 1 while reading the response, 2 by an HTTP protocol error); afterwards the same or
+    another user (subscription) of that location asks the pool for its client and posts a message: a request must really be
+    attempted (a subscription that is alive is SENT the notification), it must not fail locally without any traffic.
+    pre: 0 <= where <= 2
+    pre: 1 <= n_users <= 3
+    post: __return__ == 'ok'
+    """
+    import http.client
+    from harness import httpstubs as hs
+    from sdc11073.definitions_sdc import SdcV1Definitions
+    from sdc11073.pysoap.msgreader import MessageReader
+    from sdc11073.pysoap.soapclient import SoapClient
+    from sdc11073.pysoap.soapclientpool import SoapClientPool
+    where, same_user, n_users = pick(where, (0, 1, 2)), bool(same_user), pick(n_users, (1, 2, 3))
+    with untraced():
+        orc = Oracle()
+        try:
+            reader = MessageReader(SdcV1Definitions, None, hs.NullLogger(), validate=False)
+            attempts = []
+            broken = [True]
+
+            class Conn:
+                sock = object()
+
+                def __init__(self, *_a, **_k):
+                    pass
+
+                def connect(self):
+                    pass
+
+                def close(self):
+                    self.sock = None
+
+                def request(self, *a, **k):
+                    attempts.append('request')
+                    if broken[0] and where == 0:
+                        raise ConnectionResetError(104, 'peer dropped the connection')
+
+                def getresponse(self):
+                    if broken[0] and where == 1:
+                        raise ConnectionResetError(104, 'peer dropped the connection')
+                    if broken[0] and where == 2:
+                        raise http.client.RemoteDisconnected('Remote end closed connection without response')
+                    return hs.FakeResponse(hs.CIHeaders([('Content-Length', '0')]), hs.FakeStream(b''), status=202, reason='Accepted')
+
+            def factory(netloc, accepted):
+                cl = SoapClient(netloc, 1.0, hs.NullLogger(), None, SdcV1Definitions, reader, supported_encodings=[],
+                                request_encodings=[], chunk_size=0)
+                cl._mk_http_connection = lambda: Conn()
+                return cl
+            pool = SoapClientPool(factory, '')
+            msg = SimpleNamespace(p_msg=None, serialize=lambda request_manipulator=None, validate=True:
+                                  b'<?xml version="1.0" encoding="utf-8"?><x/>')
+            users = [f'subscription{i}' for i in range(n_users)]
+            for u in users:
+                pool.get_soap_client('10.0.0.1:8000', [], u)
+            try:
+                pool.get_soap_client('10.0.0.1:8000', [], users[0]).post_message_to('/notify', msg, validate=False)
+                orc.fail('harness:connection-did-not-break')
+            except Exception:  # noqa: BLE001
+                pass
+            broken[0] = False           # the subscriber is reachable again
+            del attempts[:]
+            user = users[0] if same_user else 'accepted_later'
+            try:
+                pool.get_soap_client('10.0.0.1:8000', [], user).post_message_to('/notify', msg, validate=False)
+            except Exception as ex:  # noqa: BLE001
+                orc.fail('delivery_fails_locally_after_an_earlier_connection_error:' + type(ex).__name__)
+            orc.check(attempts == ['request'], 'no_request_made_after_an_earlier_connection_error')
+        except Exception as ex:  # noqa: BLE001
+            return exc_result(orc, ex, 'pool')
+        return orc.result()
